@@ -5,6 +5,7 @@ import SJ.Props.C02
 import SJ.Props.C01
 import SJ.Props.C09
 import SJ.Proofs.ParsedFinite
+import SJ.Proofs.LexTopParser
 import SJ.Props.C03
 import SJ.Proofs.TypedSerClosed
 /-!
@@ -395,6 +396,30 @@ example : ∃ bufs, serCompact ext0 (ofValue (.arr [.num (.lit [0x31, 0x45, 0x34
       = .ok (.arr [.num (.lit [0x31, 0x45, 0x34, 0x30, 0x30]), .num (.lit [0x2d, 0x30])]) :=
   (c04_reparse_ap ⟨{ ap := true }, .str, .value⟩ rfl rfl ext0 ext0_ok
     [0x5b, 0x31, 0x45, 0x34, 0x30, 0x30, 0x2c, 0x2d, 0x30, 0x5d] _ rfl (fun _ => by decide +kernel) .slice).1
+
+/-! ## `float_roundtrip`: the float hypothesis follows from C07 and the hypothesis about `ryu` alone -/
+
+/-- **C04 under `float_roundtrip` (`c04_value_fr`).** With `float_roundtrip` (and without `arbitrary_precision`),
+    under the single named hypothesis `RyuShortest ext` about the external printer (`Proofs/LexTopRoundtrip.lean`: the
+    text `ryu` writes for a finite double is a number of at most 24 bytes — at most 17 significant digits —, written
+    with a fraction or an exponent, whose exact value rounds to nearest-even to the double), every well-formed `Value`
+    — *all* finite floats included — survives serialise-then-deserialise, through both formatters and every reader:
+    `FloatRoundTrips` is C07's corollary `c07_roundtrip` (lexical's conversion is correctly rounded: `c07_correct`). -/
+theorem c04_value_fr (cfg : Cfg) (hfr : cfg.fr = true) (hap : cfg.ap = false) (src : Src) (ext : Ext)
+    (hext : ExtOK ext) (hr : SJ.Proofs.LexTopRoundtrip.RyuShortest ext) (v : JV) (hwf : WFValue cfg v) :
+    (∃ bufs, serCompact ext (ofValue v) = .ok bufs ∧
+      parseTop ⟨cfg, src, .value⟩ bufs.flatten = .ok v) ∧
+    (∀ indent, Ws indent → ∃ bufs, serPretty ext indent (ofValue v) = .ok bufs ∧
+      parseTop ⟨cfg, src, .value⟩ bufs.flatten = .ok v) :=
+  c04_value_all_floats cfg src ext hext
+    (fun b hb => SJ.Proofs.LexTopParser.floatRT_fr (specCfg cfg) hfr hap ext hext hr b hb) v hwf
+
+/-- the same for one value whose floats the printer prints well (`FloatsRoundTrip` pointwise from C07): the text
+    `1.5` has `ryu`'s shape and its exact value rounds to `0x3ff8000000000000`, so `exF` (`ext0` prints `1.5`) round-trips
+    under `float_roundtrip` — by the theorem, not by evaluating lexical -/
+example : Spec.WF.floatRT (specCfg { fr := true }) ext0 0x3ff8000000000000 = true :=
+  SJ.Proofs.LexTopParser.floatRT_fr_at (specCfg { fr := true }) rfl rfl ext0 0x3ff8000000000000
+    (ext0_ok.ryu64_number _ (by decide)) ⟨by decide, by decide, by decide⟩ (by decide +kernel)
 
 /-! ## the typed clause: serialise a typed value, read it back with the typed deserializer -/
 
